@@ -208,6 +208,8 @@ pub struct Sweep {
     pub name: String,
     pub count: u64,
     pub case_timeout_s: u64,
+    // At most this many workers take part in the sweep (process launches contend in the kernel).
+    pub max_workers: u64,
     // Runs case `idx` against the real code and reports through the functions above.
     pub run: Box<dyn FnMut(u64)>,
     // Human-readable description of the case (for replay artefacts and abort reports).
@@ -228,6 +230,7 @@ impl Sweep {
             name: name.to_owned(),
             count,
             case_timeout_s: 0,
+            max_workers: u64::MAX,
             run: Box::new(run),
             describe: Box::new(describe),
             post_abort: Box::new(|_, kind| AbortVerdict::Violation {
@@ -240,6 +243,10 @@ impl Sweep {
     }
     pub fn with_post_abort(mut self, f: impl Fn(u64, &str) -> AbortVerdict + 'static) -> Sweep {
         self.post_abort = Box::new(f);
+        self
+    }
+    pub fn with_max_workers(mut self, n: u64) -> Sweep {
+        self.max_workers = n;
         self
     }
     pub fn with_timeout(mut self, s: u64) -> Sweep {
@@ -423,13 +430,17 @@ fn worker(args: WorkerArgs) {
                 let t = if sweep.case_timeout_s == 0 { default_timeout } else { sweep.case_timeout_s };
                 CASE_TIMEOUT_MS.store(t * 1000, Ordering::Relaxed);
                 CUR_SWEEP.store(si, Ordering::Relaxed);
+                let stride = args.nshards.min(sweep.max_workers.max(1));
                 let first = (args.shard + args.nshards - (args.seed % args.nshards)) % args.nshards;
+                if first >= stride {
+                    continue;
+                }
                 let mut idx = first;
                 if let Some((rs, ri)) = args.resume
                     && si == rs
                 {
                     while idx <= ri {
-                        idx += args.nshards;
+                        idx += stride;
                     }
                 }
                 if let Some((_, oi)) = args.only {
@@ -450,7 +461,7 @@ fn worker(args: WorkerArgs) {
                     if args.only.is_some() {
                         break;
                     }
-                    idx += args.nshards;
+                    idx += stride;
                 }
                 CUR_CASE.store(u64::MAX, Ordering::Relaxed);
             }
